@@ -169,7 +169,7 @@ class C16(Property):
             'dict, list and Callpoint it was handed and the reports are read again. Every text (t, r) is parsed two or three times, as '
             'str and as bytes in turn, the caller editing the earlier result in between; a text may come after a history of earlier '
             'from_string calls (the same text, texts sharing lines with it, failing calls). First in the stream: ~110 texts with '
-            'histories, then an enumerated family of ~850 small '
+            'histories, then an enumerated family of ~870 small '
             'live cases over all of these dimensions; then all texts with <= 2 frames over the option alphabet; then '
             'seeded random texts (non-ASCII paths, quotes, frame-like fragments), adversarial mutations and random '
             'live cases. Non-trivial = (t) at least one frame and the text is in the statement\'s domain, (r) the '
